@@ -18,10 +18,20 @@ pub fn instr_name(i: &PushInstruction) -> String {
     s.chars().map(|c| if c.is_whitespace() || c == '(' || c == ')' || c == '/' || c == '|' || c == '#' { '_' } else { c }).collect()
 }
 
+/// the documented table of block openers: `IfElse` opens two blocks, `DupBlock` / `When` / `Unless` one, everything
+/// else - literals included, whatever they carry - none.  The model is told *this*, not what the real `num_opens` says.
+pub fn documented_opens(i: &PushInstruction) -> usize {
+    match i {
+        PushInstruction::Exec(ExecInstruction::IfElse(_)) => 2,
+        PushInstruction::Exec(ExecInstruction::DupBlock(_) | ExecInstruction::When(_) | ExecInstruction::Unless(_)) => 1,
+        _ => 0,
+    }
+}
+
 fn gene_token(g: &PushGene) -> String {
     match g {
         PushGene::Close => "c".into(),
-        PushGene::Instruction(i) => format!("{}/{}", instr_name(i), i.num_opens()),
+        PushGene::Instruction(i) => format!("{}/{}", instr_name(i), documented_opens(i)),
     }
 }
 
@@ -54,7 +64,7 @@ fn well_shaped(p: &[PushProgram]) -> bool {
         match &p[i] {
             PushProgram::Block(_) => return false, // a block nobody opened
             PushProgram::Instruction(ins) => {
-                let k = ins.num_opens();
+                let k = documented_opens(ins);
                 for j in 1..=k {
                     match p.get(i + j) {
                         Some(PushProgram::Block(b)) => {
@@ -78,6 +88,20 @@ fn inventory() -> Vec<PushInstruction> {
     v.extend(FloatInstruction::iter().map(Into::into));
     v.extend(BoolInstruction::iter().map(Into::into));
     v.extend(ExecInstruction::iter().filter(|e| !matches!(e, ExecInstruction::Push(_))).map(Into::into));
+    // exec literals: `Exec::Push(payload)` opens no block, whatever the payload is (an opener, a block holding openers)
+    let lit = |p: PushProgram| -> PushInstruction {
+        let mut e = ExecInstruction::iter().find(|e| matches!(e, ExecInstruction::Push(_))).expect("Exec::Push variant");
+        if let ExecInstruction::Push(b) = &mut e { b.0 = p; }
+        e.into()
+    };
+    let ins = |e: ExecInstruction| PushProgram::Instruction(e.into());
+    v.push(lit(PushProgram::Block(vec![])));
+    v.push(lit(ins(ExecInstruction::when())));
+    v.push(lit(ins(ExecInstruction::unless())));
+    v.push(lit(ins(ExecInstruction::dup_block())));
+    v.push(lit(ins(ExecInstruction::if_else())));
+    v.push(lit(PushProgram::Block(vec![ins(ExecInstruction::if_else()), PushProgram::Block(vec![])])));
+    v.push(lit(PushProgram::Instruction(PushInstruction::push_int(5))));
     v
 }
 
@@ -91,7 +115,7 @@ fn check_case(d: &mut crate::driver::Driver, r: &mut Report, genes: Vec<PushGene
     let reply = d.ask(&req);
     let (impl_s, spec_s) = reply.split_once(" ## ").unwrap_or((&reply, ""));
     let instrs: Vec<PushInstruction> = genes.iter().filter_map(|g| if let PushGene::Instruction(i) = g { Some(i.clone()) } else { None }).collect();
-    let has_open = instrs.iter().any(|i| i.num_opens() > 0);
+    let has_open = instrs.iter().any(|i| documented_opens(i) > 0);
     let has_close = genes.iter().any(|g| matches!(g, PushGene::Close));
     let short = if req.len() > 400 { format!("{}… ({} genes)", &req[..400], genes.len()) } else { req.clone() };
     r.case(&req, has_open && has_close);
@@ -149,7 +173,7 @@ pub fn run(cfg: &Cfg) -> Report {
             let len = match g.below(4) { 0 => g.below(20), 1 => g.below(200), _ => g.below(2000) };
             let close_pct = *g.pick(&[0u64, 5, 15, 30, 60]);
             let open_pct = *g.pick(&[0u64, 5, 20, 50, 90]);
-            let openers: Vec<&PushInstruction> = inv.iter().filter(|i| i.num_opens() > 0).collect();
+            let openers: Vec<&PushInstruction> = inv.iter().filter(|i| documented_opens(i) > 0).collect();
             let mut genes = Vec::new();
             for k in 0..len {
                 if g.below(100) < close_pct { genes.push(PushGene::Close); }
@@ -165,7 +189,7 @@ pub fn run(cfg: &Cfg) -> Report {
     // inventory cross-check of num_opens (DupBlock/When/Unless = 1, IfElse = 2, everything else 0)
     for i in &inv {
         let name = format!("{i}");
-        let expect = if name.contains("IfElse") { 2 } else if name.contains("DupBlock") || name.contains("When") || name.contains("Unless") { 1 } else { 0 };
+        let expect = documented_opens(i);
         if i.num_opens() != expect {
             rep.violate(json!({"case": name, "what": "num_opens differs from the documented table", "real": i.num_opens(), "expected": expect}));
         }
